@@ -12,12 +12,16 @@ RULE = ("cdist(U,U) of a whole universe in one call for every weight triple of t
 ASSUMPTIONS = ["long strings are covered as a boundary family (lengths 254..400 x 3 shapes), not all strings of that length",
                "weights*length kept below 2^24 (float32 exactness of the generic scorer path is not relied on above that)",
                "rapidfuzz cdist workers=-1 answered with one thread in the bulk spaces; free-running-threads space uses the untouched function"]
-REQUIRED_CLASSES = {"all": ["asymmetric-ins-del", "long-string>255", "condensed-layout", "kwargs-forwarded", "free-running-threads", "several-metric-objects-alive", "falsy-metric-object", "extreme-aspect-ratio", "none-and-falsy-option-values"]}
+REQUIRED_CLASSES = {"all": ["asymmetric-ins-del", "long-string>255", "condensed-layout", "kwargs-forwarded", "free-running-threads", "several-metric-objects-alive", "falsy-metric-object", "extreme-aspect-ratio", "none-and-falsy-option-values", "clone-dominated-collection", "trailing-nul"]}
 MIN_OUTCOMES = 10
 SINGLE_THREAD_RAPIDFUZZ = True
 
 EXTRA_W = ((2, 3, 10), (3, 2, 10), (1, 1, 3), (7, 11, 13))
 LONG = (254, 255, 256, 257, 300, 400)
+
+
+# two distinct strings repeated in every interleaving of 9 (clone-dominated collections); one pair differs by a trailing NUL only
+CLONE_PAIRS = (("CASS", "CASSL"), ("CASS\x00", "CASS"), ("AB", "B"), ("CASSL\x00", "CASS"))
 
 
 def triples(tier):
@@ -64,12 +68,18 @@ def spaces(tier):
         for w in ((1, 1, 1), (1, 2, 3), (2, 1, 3)):
             yield ("free", w)
 
+    def gen_clones():
+        for pi in range(len(CLONE_PAIRS)):
+            for w in ((1, 2, 3), (3, 1, 2), (1, 1, 1)):
+                yield ("clones", pi, w)
+
     return [
         Space("cdist-of-universe", gen_cdist, "cdist(U,U) in one call: U(AB,5) quick / U(ABC,6) thorough x 27 weight triples in {1,2,3}^3 + %s; U(AB,6|8) x {(1,1,1),(1,2,3)}; Levenshtein class" % (EXTRA_W,), per_case=True),
         Space("condensed-layout-all-lists", gen_layout, "Lists(U(AB,2),4|5) x weights {(1,1,1),(1,2,3),(3,1,2)}: every condensed index, squareform round trip, pdist == upper triangle of cdist", shards=64),
         Space("long-string-boundary-family", gen_long, "lengths %s x shapes {x^n vs y^n, x^n vs '', x^n vs x^(n-1)y, x^n vs x^n} x 3 weight triples" % (LONG,)),
         Space("functional-pdist-cdist", gen_func, "Lists(U(AB,2),4|5) with a metric encoding (a,b) and a forwarded keyword; default metric"),
         Space("extreme-aspect-ratios", gen_aspect, "cdist of 1-3 anchors against 70-300 comparisons (and the transposed shapes) x 3 weight triples; matrices of about 2^22 entries (2049x2048, 1025x4096, 4097x1024, 2048x2049) with asymmetric weights", per_case=True),
+        Space("clone-dominated-collections", gen_clones, "every sequence of length 9 over two distinct strings (4 pairs, one differing by a trailing NUL only) x 3 weight triples: pdist, cdist against a 4-element comparison list", per_case=True),
         Space("free-running-rapidfuzz-threads", gen_free, "cdist(U(AB,4),U(AB,4)) x 3 weight triples with rapidfuzz's own thread pool untouched", per_case=True),
     ]
 
@@ -156,6 +166,44 @@ def check_case(case, acc):
             acc.fail("WeightedLevenshtein/cdist/aspect-ratio", case, "directional distances anchors -> comparisons", r if raised(r) else "differs", note="shape %dx%d" % (na, nb))
             return
         acc.ok((na, nb, w), nontrivial=True)
+    elif kind == "clones":
+        _, pi, w = case
+        a, b = CLONE_PAIRS[pi]
+        acc.cls("clone-dominated-collection")
+        if "\x00" in a + b:
+            acc.cls("trailing-nul")
+        comp = [b, b, a + "L", a + "L"]
+        m = mk(w)
+        lev = Levenshtein()
+        for pat in itertools.product((0, 1), repeat=9):
+            X = [a if t == 0 else b for t in pat]
+            v = acc.call(m.calc_pdist_vector, X)
+            exp = [ref_wlev(X[i], X[j], *w) for i in range(9) for j in range(i + 1, 9)]
+            c = acc.call(m.calc_cdist_matrix, X, comp)
+            expc = [[ref_wlev(x, y, *w) for y in comp] for x in X]
+            if raised(v) or np.asarray(v).tolist() != exp or raised(c) or np.asarray(c).tolist() != expc:
+                acc.fail("WeightedLevenshtein/clone-dominated-collection", ("clones1", pi, w, pat), {"pdist": exp, "cdist": expc}, {"pdist": v if raised(v) else np.asarray(v).tolist(), "cdist": c if raised(c) else np.asarray(c).tolist()})
+                return
+            if w == (1, 1, 1):
+                v2 = acc.call(lev.calc_pdist_vector, X)
+                if raised(v2) or np.asarray(v2).tolist() != exp:
+                    acc.fail("Levenshtein/clone-dominated-collection", ("clones1", pi, w, pat), exp, v2 if raised(v2) else np.asarray(v2).tolist())
+                    return
+            acc.ok()
+        acc.ok(("clones", pi, w), nontrivial=True)
+    elif kind == "clones1":
+        _, pi, w, pat = case
+        a, b = CLONE_PAIRS[pi]
+        X = [a if t == 0 else b for t in pat]
+        comp = [b, b, a + "L", a + "L"]
+        v = acc.call(mk(w).calc_pdist_vector, X)
+        c = acc.call(mk(w).calc_cdist_matrix, X, comp)
+        exp = [ref_wlev(X[i], X[j], *w) for i in range(9) for j in range(i + 1, 9)]
+        expc = [[ref_wlev(x, y, *w) for y in comp] for x in X]
+        if raised(v) or np.asarray(v).tolist() != exp or raised(c) or np.asarray(c).tolist() != expc:
+            acc.fail("WeightedLevenshtein/clone-dominated-collection", case, {"pdist": exp, "cdist": expc}, {"pdist": v if raised(v) else np.asarray(v).tolist(), "cdist": c if raised(c) else np.asarray(c).tolist()})
+        else:
+            acc.ok()
     elif kind == "pair":
         _, a, b, w = case
         r = acc.call(mk(w).calc_cdist_matrix, [a], [b])
